@@ -94,14 +94,12 @@ inductive Rhs where
   deriving Repr, DecidableEq, Inhabited
 
 /-- structured form of `gmodel.Assignment`.  `warns` are the stderr lines printed while this
-statement was being decided, in order.  `dropped` is the case where the Go code returns a nil
-assignment (nested struct pair without content): nothing is rendered. -/
+statement was being decided, in order. -/
 inductive Stmt where
   | skip (lhs : Node)
   | noMatch (lhs : Node) (warns : List String)
   | simple (lhs : Node) (rhs : Rhs) (err : Bool) (warns : List String)
   | nest (lhs rhs : Node) (initExpr nullCheck : String) (body : List Stmt) (warns : List String)
-  | dropped (lhs : Node) (warns : List String)
   | sliceCopy (lhs rhs : Node) (typ : String)
   | sliceLoop (lhs rhs : Node) (typ : String)
   | sliceCast (lhs rhs : Node) (typ cast : String)
@@ -288,64 +286,66 @@ def sliceToSlice (lhs rhs : Node) : Outcome (Option Stmt) :=
     .ok (some (.sliceCast lhs rhs ("[]" ++ env.typeNameF le) (env.typeNameF le)))
   else .ok none
 
-/-- state of the two candidate passes of `structFieldAndStructGettersAndFields` -/
+/-- state of the two candidate passes of `structFieldAndStructGettersAndFields`: the assignment found
+so far (the search stops at the first candidate that yields one) and the warnings printed on the way -/
 structure Pass where
   a : Option Stmt := none
-  nested : Bool := false
   warns : List String := []
-  done : Bool := false
 
-/-- the `handler` closure: one source candidate.  `rec` is the nested `structToStruct` call. -/
-def handler (rec : Node → Node → Outcome (List Stmt)) (lhs rhsStruct : Node) (st : Pass) (cand : Node) :
-    Outcome Pass := do
+/-- what one source candidate yields for `lhs` (the body of the `handler` closure): a statement, or
+nothing — then with the warnings printed while trying.  `rec` is the nested `structToStruct` call. -/
+def tryCand (rec : Node → Node → Outcome (List Stmt)) (lhs rhsStruct : Node) (warns : List String) (cand : Node) :
+    Outcome (Option Stmt × List String) := do
   let env := ctx.env
-  if st.done then return st
   if !ctx.accessible rhsStruct cand.objName || !ctx.opts.compareFieldName lhs.objName cand.objName then
-    return st
+    return (none, warns)
   let lt := lhs.exprType env
   let ct := cand.exprType env
   let sl ← (if env.isSliceType lt && env.isSliceType ct then ctx.sliceToSlice lhs cand else pure none)
   match sl with
-  | some s => return { st with a := some s, done := true }
+  | some s => return (some s, warns)
   | none =>
     let (c?, w) ← ctx.castNode lt cand
     match c? with
-    | some c => return { st with a := some (.simple lhs (.node c) c.returnsError (st.warns ++ w)), done := true }
+    | some c => return (some (.simple lhs (.node c) c.returnsError (warns ++ w)), warns)
     | none =>
       if env.isStructType lt && env.isStructType ct then
         let initExpr := if env.isPtr lt then lhs.assignExpr env ++ " = " ++ env.typeNameF lt ++ "{}" else ""
         let nullCheck := if cand.objNullable env then cand.nullCheckExpr env else ""
         let body ← rec lhs cand
-        if body.isEmpty then
-          return { st with a := none, nested := true, warns := st.warns ++ w, done := true }
-        else
-          return { st with a := some (.nest lhs cand initExpr nullCheck body (st.warns ++ w)), nested := true,
-                           warns := st.warns ++ w, done := true }
+        if body.isEmpty then return (none, warns ++ w)
+        else return (some (.nest lhs cand initExpr nullCheck body (warns ++ w)), warns ++ w)
       else
-        return { st with a := none, warns := st.warns ++ w, done := true }
+        return (none, warns ++ w)
+
+/-- the `handler` closure over the pass state.  A candidate that yields nothing leaves the search
+open (`return a != nil || err != nil`). -/
+def handler (rec : Node → Node → Outcome (List Stmt)) (lhs rhsStruct : Node) (st : Pass) (cand : Node) :
+    Outcome Pass :=
+  if st.a.isSome then .ok st else
+  match ctx.tryCand rec lhs rhsStruct st.warns cand with
+  | .ok (a, w) => .ok { a := a, warns := w }
+  | .error e => .error e
+  | .panic p => .panic p
+
+/-- the source candidates in the order they are tried: getters first (only under `:getter`), then
+fields — and none at all unless the rule is `:match name` -/
+def candidates (rhsStruct : Node) : List Node :=
+  let env := ctx.env
+  let rt := rhsStruct.exprType env
+  if ctx.opts.rule == .name then
+    (if ctx.opts.getter then
+      ((env.methodsOf rt).filter env.compliesGetter).map fun m => Node.method rhsStruct m.name m.results
+     else []) ++
+    ((env.fieldsOf rt).map fun f => Node.field rhsStruct f.name f.ty)
+  else []
 
 /-- `structFieldAndStructGettersAndFields` -/
 def fieldDefault (rec : Node → Node → Outcome (List Stmt)) (lhs rhsStruct : Node) : Outcome Stmt := do
-  let env := ctx.env
-  let rt := rhsStruct.exprType env
-  let st0 : Pass := {}
-  let st1 ← (if ctx.opts.getter then
-      foldOutcome (ctx.handler rec lhs rhsStruct) st0
-        (((env.methodsOf rt).filter env.compliesGetter).map fun m => Node.method rhsStruct m.name m.results)
-    else pure st0)
-  match st1.a with
+  let st ← foldOutcome (ctx.handler rec lhs rhsStruct) {} (ctx.candidates rhsStruct)
+  match st.a with
   | some a => return a
-  | none =>
-    let st1 := { st1 with done := false }
-    let st2 ← (if ctx.opts.rule == .name then
-        foldOutcome (ctx.handler rec lhs rhsStruct) st1
-          ((env.fieldsOf rt).map fun f => Node.field rhsStruct f.name f.ty)
-      else pure st1)
-    if ctx.opts.rule == .name then
-      match st2.a with
-      | some a => return a
-      | none => if st2.nested then return .dropped lhs st2.warns else ctx.noMatchAt ctx.methodPos lhs st2.warns
-    else ctx.noMatchAt ctx.methodPos lhs st2.warns
+  | none => ctx.noMatchAt ctx.methodPos lhs st.warns
 
 /-- `matchStructFieldAndStruct`: the precedence chain -/
 def matchField (rec : Node → Node → Outcome (List Stmt)) (lhs rhs : Node) (args : List Node) : Outcome Stmt := do
@@ -406,7 +406,6 @@ def Stmt.toAssignments (env : Env) : Stmt → List Assignment
   | .simple lhs (.node n) err _ => [.simpleField (lhs.assignExpr env) (n.assignExpr env) err]
   | .simple lhs (.literal t) err _ => [.simpleField (lhs.assignExpr env) t err]
   | .nest _ _ i n body _ => [.nestStruct i n (Stmt.listToAssignments env body)]
-  | .dropped _ _ => []
   | .sliceCopy l r t => [.sliceAssignment (l.assignExpr env) (r.assignExpr env) t]
   | .sliceLoop l r t => [.sliceLoopAssignment (l.assignExpr env) (r.assignExpr env) t]
   | .sliceCast l r t c => [.sliceTypecastAssignment (l.assignExpr env) (r.assignExpr env) t c]
@@ -423,7 +422,6 @@ def Stmt.warnings : Stmt → List String
   | .noMatch _ w => w
   | .simple _ _ _ w => w
   | .nest _ _ _ _ body w => w ++ Stmt.listWarnings body
-  | .dropped _ w => w
   | .sliceCopy .. => []
   | .sliceLoop .. => []
   | .sliceCast .. => []
